@@ -3,7 +3,16 @@ import Taskpool.Inv.Tame
 namespace Taskpool
 namespace Pool
 
-theorem tame_register (p : Pool) (r : Req) : Tame p (p.register r) := tame_of_eq _ _ rfl rfl
+theorem flat_addGroupIfMissing (gs : List (String × List Nat)) (g : String) : flat (addGroupIfMissing gs g) = flat gs := by
+  unfold addGroupIfMissing
+  split
+  · rfl
+  · simp
+
+theorem tame_register (p : Pool) (r : Req) : Tame p (p.register r) :=
+  tame_of_eq _ _ rfl rfl rfl rfl rfl rfl (by
+    show (flat (addGroupIfMissing p.groups r.group)).Sublist (flat p.groups)
+    rw [flat_addGroupIfMissing]; exact List.Sublist.refl _)
 
 theorem tame_doApply (p : Pool) (num group sp) : Tame p (p.doApply num group sp).1 := by
   unfold doApply
@@ -15,7 +24,7 @@ theorem tame_doMap (p : Pool) (stars items nc group sp) : Tame p (p.doMap stars 
 
 theorem tame_doStart (p : Pool) (num) : Tame p (p.doStart num).1 := by
   unfold doStart
-  repeat' (first | exact Tame.refl _ | exact tame_of_eq _ _ rfl rfl | split | dsimp only)
+  repeat' (first | exact Tame.refl _ | (refine Tame.trans ?_ (tame_register _ _); exact tame_of_eq _ _ rfl rfl) | split | dsimp only)
 
 theorem tame_doCancel (p : Pool) (ids) : Tame p (p.doCancel ids).1 := by
   unfold doCancel
@@ -51,7 +60,7 @@ theorem tame_cancelGroupBody (p p' : Pool) (g ids order) (h : p.cancelGroupBody 
 
 theorem tame_dropGroup (p : Pool) (g : String) :
     Tame p ({ p.popOrder.1 with groups := p.popOrder.1.groups.filter (·.1 != g) } : Pool) :=
-  Tame.trans (tame_popOrder p) (tame_of_eq _ _ rfl rfl)
+  Tame.trans (tame_popOrder p) (tame_of_eq _ _ rfl rfl rfl rfl rfl rfl (flat_filter_sublist _ _))
 
 theorem tame_doCancelGroup (p : Pool) (g) : Tame p (p.doCancelGroup g).1 := by
   unfold doCancelGroup
@@ -76,7 +85,7 @@ theorem tame_cancelAllLoop (gs : List (String × List Nat)) (order : List Nat) (
       exact Tame.trans (tame_cancelGroupBody _ _ _ _ _ hq) (ih q h)
 
 theorem tame_dropGroups (p : Pool) : Tame p ({ p.popOrder.1 with groups := [] } : Pool) :=
-  Tame.trans (tame_popOrder p) (tame_of_eq _ _ rfl rfl)
+  Tame.trans (tame_popOrder p) (tame_of_eq _ _ rfl rfl rfl rfl rfl rfl (by simp))
 
 theorem tame_doCancelAll (p : Pool) : Tame p p.doCancelAll.1 := by
   unfold doCancelAll
